@@ -7,8 +7,8 @@ import (
 	"io"
 	"log"
 
-	"git.torproject.org/pluggable-transports/snowflake.git/v2/internal/verifapi"
 	"git.torproject.org/pluggable-transports/snowflake.git/v2/common/bridgefingerprint"
+	"git.torproject.org/pluggable-transports/snowflake.git/v2/internal/verifapi"
 	"github.com/prometheus/client_golang/prometheus"
 )
 
